@@ -3,7 +3,9 @@
 A case is a history of operations on a small metamodel built in the case itself: `define` (class), `assoc`
 (define_association + formalize), `new` (positional / keyword arguments under arbitrary spellings), `set`,
 `del`, `reads` (getattr under a list of spellings), `sel` (select_many + where_eq), `rel` / `unrel`, `ser`
-(xtuml.serialize_instance), `find` (find_metaclass).  Every name is spelled independently at every use.
+(xtuml.serialize_instance), `find` (find_metaclass), `sel1` (select_any).  Every name is spelled independently at
+every use; in the class-lookup family the lookups also come BEFORE the class is defined (D: every spelling is
+rejected with UnknownClassException before define_class and reaches the class after it).
 
   D  (property predicate; oracle = one cell per (instance, NAME.upper()) kept by the harness):
      a read of a non-referential attribute under every spelling gives the last value written to the
@@ -36,7 +38,11 @@ RULE = ('(1) exhaustive: every history of length L (quick 3, thorough 4) over th
         'identifying and one referential attribute, mixed-case kinds, names and type names, histories of up to 40 '
         'ops (new with positional/keyword mixes incl. referential keywords in any spelling, set, del of present, '
         'absent and referential attributes, reads, where_eq selections, relate/unrelate, serialize, '
-        'find) with an independently chosen spelling at every use; non-trivial = some cell was written under two '
+        'find) with an independently chosen spelling at every use; (3) class lookup: exhaustively one lookup '
+        '(find_metaclass / new / select_many / select_any) under each of the 4 spellings of a 2-letter kind BEFORE '
+        'define_class under each spelling, then every lookup kind under every spelling after it, plus random '
+        'histories over 2-4 kinds interleaving lookups before and after each definition (spellings used before the '
+        'definition are revisited after it) and redefinition attempts under other spellings; non-trivial = some cell was written under two '
         'different spellings and read under yet another; distinct = distinct op sequence')
 EXHAUSTIVE = {'quick': True, 'thorough': True}
 ASSUMPTIONS = ['names are ASCII identifiers (str.upper on ASCII); declared attribute names of a class are distinct '
@@ -244,7 +250,70 @@ def _random_case(r, maxlen):
     return {'fam': 'rand', 'ops': ops}
 
 
+LOOKUPS = ('find', 'new', 'sel', 'sel1')
+
+
+def _lookup_op(kind_sp, how, r=None):
+    if how == 'find':
+        return ['find', kind_sp]
+    if how == 'new':
+        return ['new', kind_sp, [], []]
+    filt = [] if r is None or r.random() < 0.7 else [['N', 0]]
+    return [how, kind_sp, filt]
+
+
+def _class_lookup_exhaustive():
+    sps = case_patterns('aB')
+    for pre_sp in sps:
+        for pre_how in LOOKUPS:
+            for def_sp in sps:
+                ops = [_lookup_op(pre_sp, pre_how), ['define', def_sp, [['n', 'integer']]]]
+                for sp in sps:
+                    for how in LOOKUPS:
+                        ops.append(_lookup_op(sp, how))
+                ops.append(['define', pre_sp, []])                       # redefinition under (maybe) another spelling
+                ops.append(_lookup_op(pre_sp, 'find'))
+                yield {'fam': 'cls', 'ops': ops}
+
+
+def _class_lookup_random(r):
+    kinds = []
+    nk = r.randint(2, 4)
+    while len(kinds) < nk:
+        k = _ident(r, 2, 3)
+        if k.upper() not in [x.upper() for x in kinds]:
+            kinds.append(k)
+    defined = set()
+    used = {k.upper(): [] for k in kinds}            # spellings looked up so far, per kind
+    ops = []
+    for _ in range(r.randint(6, 30)):
+        k = r.choice(kinds)
+        K = k.upper()
+        w = r.random()
+        if w < 0.22:
+            ops.append(['define', respell(r, k), [['n', 'integer']] if K not in defined else []])
+            defined.add(K)
+        else:
+            if used[K] and r.random() < 0.6:
+                sp = r.choice(used[K])                # the same spelling again (before / after the definition)
+            else:
+                sp = respell(r, k)
+            used[K].append(sp)
+            ops.append(_lookup_op(sp, r.choice(LOOKUPS), r))
+    for k in kinds:                                   # every kind ends defined and is looked up once more
+        if k.upper() not in defined:
+            ops.append(['define', respell(r, k), [['n', 'integer']]])
+        for sp in set(used[k.upper()][:3]):
+            ops.append(_lookup_op(sp, r.choice(LOOKUPS), r))
+    return {'fam': 'cls', 'ops': ops}
+
+
 def generate(ctx):
+    for c in _class_lookup_exhaustive():
+        yield c
+    rng = ctx.rng.fork('class-lookup')
+    for i in range(ctx.pick(1500, 20000)):
+        yield _class_lookup_random(rng.fork(i))
     if os.environ.get('VERIF_C10_FAMILY', '') != 'random':        # development aid: look at one family only
         for c in _exhaustive(ctx):
             yield c
@@ -436,6 +505,8 @@ def run_impl(case):
                     exc = e
                     res = _exc_name(e)
                 i = register_new(K, before)
+                if K not in orc.classes and exc is None:
+                    fail('unknown-class-found', 'new(%r) succeeded although no such class is defined' % op[1], n)
                 if K in orc.classes and i is None:
                     fail('class-lookup-case', 'new(%r) created no instance of %r (%s)' % (op[1], orc.classes[K]['kind'], res), n)
                 if i is not None:
@@ -518,10 +589,14 @@ def run_impl(case):
                     except AttributeError:
                         res.append(Sym('AttributeError'))
                 check_instance(i, n)
-            elif nm == 'sel':
+            elif nm in ('sel', 'sel1'):
                 K = op[1].upper()
                 try:
-                    q = m.select_many(op[1], x.where_eq(**dict((k, v) for k, v in op[2])))
+                    if nm == 'sel':
+                        q = m.select_many(op[1], x.where_eq(**dict((k, v) for k, v in op[2])))
+                    else:
+                        one = m.select_any(op[1], x.where_eq(**dict((k, v) for k, v in op[2])))
+                        q = [] if one is None else [one]
                     res = [index_of.get(id(o), -1) for o in q]
                     if K in orc.classes:
                         want, known = [], True
@@ -541,15 +616,18 @@ def run_impl(case):
                                 break
                             if hit:
                                 want.append(i)
+                        if nm == 'sel1':
+                            want = want[:1]
                         if known and want != res:
-                            fail('where-eq-differs', 'select_many(%r, where_eq(%s)) gave instances %r, the cells match for %r'
-                                 % (op[1], op[2], res, want), n)
+                            fail('where-eq-differs', '%s(%r, where_eq(%s)) gave instances %r, the cells match for %r'
+                                 % ('select_many' if nm == 'sel' else 'select_any', op[1], op[2], res, want), n)
                     else:
-                        fail('unknown-class-found', 'select_many(%r) did not raise' % op[1], n)
+                        fail('unknown-class-found', 'select(%r) did not raise' % op[1], n)
                 except x.UnknownClassException:
                     res = Sym('UnknownClass')
                     if K in orc.classes:
-                        fail('class-lookup-case', 'select_many(%r) raised although class %r exists' % (op[1], orc.classes[K]['kind']), n)
+                        fail('class-lookup-case', 'select(%r) raised UnknownClassException although class %r is defined'
+                             % (op[1], orc.classes[K]['kind']), n)
                 except AttributeError:
                     res = Sym('AttributeError')
             elif nm in ('rel', 'unrel'):
@@ -597,8 +675,24 @@ def run_impl(case):
     obs.append([Sym('state')] + state)
     obs.append([Sym('links')] + sorted(links))
     key = dumps(_ops_sexp(case['ops']))
-    return {'obs': obs, 'd_fail': fails, 'nontrivial': nontrivial or (case['fam'] == 'exh' and _exh_nontrivial(case)),
+    return {'obs': obs, 'd_fail': fails, 'nontrivial': nontrivial or (case['fam'] == 'exh' and _exh_nontrivial(case))
+            or (case['fam'] == 'cls' and _cls_nontrivial(case)),
             'key': key, 'stats': stats}
+
+
+def _cls_nontrivial(case):
+    """some exact spelling of a kind is looked up both before and after the kind is defined"""
+    before, defined = set(), set()
+    for op in case['ops']:
+        if op[0] == 'define':
+            defined.add(op[1].upper())
+        elif op[0] in LOOKUPS:
+            if op[1].upper() in defined:
+                if op[1] in before:
+                    return True
+            else:
+                before.add(op[1])
+    return False
 
 
 def _exh_nontrivial(case):
@@ -672,7 +766,7 @@ def _ops_sexp(ops):
             out.append([Sym('new'), op[1], [Sym('args')] + list(op[2]), [Sym('kw')] + [[k, v] for k, v in op[3]]])
         elif nm == 'reads':
             out.append([Sym('reads'), op[1]] + list(op[2]))
-        elif nm == 'sel':
+        elif nm in ('sel', 'sel1'):                                     # select_any = first of select_many in the model
             out.append([Sym('sel'), op[1]] + [[k, v] for k, v in op[2]])
         elif nm == 'ser':
             out.append([Sym('ser'), op[1]])
@@ -688,6 +782,8 @@ def model_line(case):
 def model_obs(case, ans):
     out = list(ans)
     for n, op in enumerate(case['ops']):
+        if op[0] == 'sel1' and isinstance(out[n], list):
+            out[n] = out[n][:1]
         if op[0] == 'ser' and isinstance(out[n], list):
             out[n] = [(_null_of(ty) if v == Sym('none') else v) for v, ty in zip(out[n], op[2])]
     if out and isinstance(out[-1], list) and out[-1] and out[-1][0] == Sym('links'):
@@ -698,8 +794,8 @@ def model_obs(case, ans):
 def shrink_candidates(case):
     ops = case['ops']
     for i in range(len(ops) - 1, -1, -1):
-        if ops[i][0] in ('define', 'assoc', 'new'):
-            continue
+        if ops[i][0] in ('define', 'assoc', 'new') and case['fam'] != 'cls':
+            continue                      # (no op of the class-lookup family refers to an instance index)
         c = dict(case)
         c['ops'] = ops[:i] + ops[i + 1:]
         yield c
